@@ -320,6 +320,40 @@ class SymNP:
         from .engine import Unsupported
         raise Unsupported(f"symnp.sort on shape {arr.shape} axis {axis}")
 
+    def min(self, a, *args, **k):
+        """np.min of a 1-D vector holding symbolic values: fork-free ITE chain"""
+        if args or k or not _anysym(a) or _np.ndim(a) != 1:
+            return _np.min(a, *args, **k)
+        v = list(_np.asarray(a, dtype=object))
+        out = v[0]
+        for x in v[1:]:
+            out = _min1(out, x)
+        return out
+
+    def max(self, a, *args, **k):
+        if args or k or not _anysym(a) or _np.ndim(a) != 1:
+            return _np.max(a, *args, **k)
+        v = list(_np.asarray(a, dtype=object))
+        out = v[0]
+        for x in v[1:]:
+            out = _max1(out, x)
+        return out
+
+    def partition(self, a, kth, *args, **k):
+        """np.partition: any arrangement with the kth element in sorted position and smaller/larger elements on its sides;
+        the fully sorted vector is one such arrangement (callers only index the result at kth)"""
+        if not _anysym(a):
+            return _np.partition(a, kth, *args, **k)
+        arr = _np.array(a, dtype=object)
+        if arr.ndim != 1:
+            from .engine import Unsupported
+            raise Unsupported(f"symnp.partition on shape {arr.shape}")
+        n = len(arr)
+        kk = int(kth)
+        if not -n <= kk < n:
+            raise ValueError(f"kth(={kk}) out of bounds ({n})")  # as numpy
+        return _np.array(self.sort_sym(list(arr)), dtype=object).view(SymND)
+
     def sort_sym(self, vals):
         """sorting network by symbolic comparisons (no fork): returns sorted list."""
         v = list(vals)
